@@ -368,8 +368,9 @@ def prepare_attempts(ctx: Ctx) -> None:
             for u, v in zip(idx, sh):
                 perm[u] = v
         a2 = a[perm] @ random_rotation(rng).T + np.array([rng.uniform(-2, 2) for _ in range(3)])
-        stored = [a.flatten(), b.flatten(), a2.flatten()]
-        if not prepare_check(ctx, labels, stored, ([0, 1], [1, 0], [0, 2], [2, 0], [1, 2], [2, 1])):
+        # minimum 3 is stored with exactly the coordinates of minimum 0 (a duplicate kept apart by its energy)
+        stored = [a.flatten(), b.flatten(), a2.flatten(), a.flatten().copy()]
+        if not prepare_check(ctx, labels, stored, ([0, 1], [1, 0], [0, 2], [2, 0], [1, 2], [2, 1], [0, 3], [3, 0], [0, 1])):
             return
 
 
@@ -432,10 +433,80 @@ def prepare_check(ctx: Ctx, labels, stored, pairs) -> bool:
                          f"the second array is not a rigid like-atom-permuted image of minimum {pair[1]} under the "
                          f"reported permutation {pm}", rep)
                 return False
+            # the caller builds its band from the two arrays and is free to change them: the network keeps its own
+            m1 += 7.5
+            m2 -= 3.25
+            for q, x in enumerate(stored):
+                if not np.array_equal(np.asarray(ktn.get_minimum_coords(q), dtype=float), x):
+                    ctx.fail("prepare:returned-array-is-the-stored-one", f"prepare_connection_attempt({pair}): changing the arrays "
+                             f"it returned changed the stored coordinates of minimum {q}", rep)
+                    return False
     return True
 
 
+def refused_comparison(ctx: Ctx) -> None:
+    """a comparison the library refuses (two isomers: same atoms, different bonding — ethanol against dimethyl ether —
+    there is no like-atom matching of bonding environments) may raise, but the caller's coordinates object must come
+    back holding ITS structure (rigidly: the alignment centres it), and go on working: it still matches its own rotated,
+    translated, relabelled copy"""
+    from scipy.spatial.transform import Rotation
+    from topsearch.data.coordinates import MolecularCoordinates
+    from props.c07 import ETHANOL
+    labels, eth = list(ETHANOL[0]), np.array(ETHANOL[1])
+    c1, c2, o = np.array([-1.18, -0.2, 0.0]), np.array([1.18, -0.2, 0.0]), np.array([0.0, 0.47, 0.0])
+    hs = []
+    for c in (c1, c2):
+        u = (c - o) / np.linalg.norm(c - o)
+        e1 = np.cross(u, [0.0, 0.0, 1.0]); e1 /= np.linalg.norm(e1)
+        e2 = np.cross(u, e1)
+        for phi in (0.0, 2.0944, 4.1888):
+            hs.append(c + 1.09 * (0.3338 * u + 0.9426 * (np.cos(phi) * e1 + np.sin(phi) * e2)))
+    ether = np.array([c1, c2, o] + hs)
+
+    def dmat(x):
+        p = np.asarray(x, dtype=float).reshape(-1, 3)
+        return np.linalg.norm(p[:, None, :] - p[None, :, :], axis=2)
+    try:
+        coords = MolecularCoordinates(labels, eth.flatten().copy())
+    except Exception as e:  # noqa: BLE001 - ase / rdkit missing would be infrastructure
+        ctx.stats.notes["refused-comparison"] = f"skipped ({type(e).__name__})"
+        return
+    d0 = dmat(coords.position)
+    rep = {"refused_comparison": True}
+    for call_name in ("optimal_alignment", "test_same"):
+        sim = make_sim(0.1)
+        refused = None
+        try:
+            if call_name == "optimal_alignment":
+                sim.optimal_alignment(coords, ether.flatten().copy())
+            else:
+                sim.test_same(coords, ether.flatten().copy(), -1.0, -1.0)
+        except Exception as e:  # noqa: BLE001
+            refused = type(e).__name__
+        ctx.stats.case({"pred": "refused-comparison", "call": call_name, "refused": refused}, True)
+        if np.asarray(coords.position).shape != (27,) or float(np.max(np.abs(dmat(coords.position) - d0))) > 1e-9:
+            ctx.fail("comparison-leaves-other-structure-in-caller", f"{call_name}(ethanol, dimethyl ether) "
+                     f"{'raised ' + refused if refused else 'returned'}, and the ethanol coordinates object now holds another "
+                     f"structure (inter-atomic distances changed by "
+                     f"{float(np.max(np.abs(dmat(coords.position) - d0))) if np.asarray(coords.position).shape == (27,) else 'shape'})", rep)
+            return
+        rot = Rotation.from_euler("xyz", [0.4, -1.1, 2.0])
+        perm = [0, 1, 2, 4, 3, 6, 5, 7, 8]                        # exchanges within the two pairs of like hydrogens
+        copy = (rot.apply(np.asarray(coords.position).reshape(-1, 3)[perm]) + np.array([0.7, -0.3, 1.9])).flatten()
+        try:
+            dist = float(make_sim(0.1).optimal_alignment(coords, copy)[0])
+        except Exception as e:  # noqa: BLE001
+            ctx.fail("comparison-leaves-other-structure-in-caller", f"after a refused {call_name} the same ethanol object can no "
+                     f"longer be aligned with its own rigid copy: {type(e).__name__}: {e}", rep)
+            return
+        if dist > 1e-3:
+            ctx.fail("comparison-leaves-other-structure-in-caller", f"after a refused {call_name} the ethanol object is {dist:.3g} "
+                     "away from its own rotated, translated, relabelled copy", rep)
+            return
+
+
 def predicates(ctx: Ctx) -> None:
+    refused_comparison(ctx)
     from topsearch.data.coordinates import AtomicCoordinates, MolecularCoordinates
     import topsearch.similarity.molecular_similarity as ms
     from scipy.spatial.transform import Rotation
@@ -617,7 +688,9 @@ def predicates(ctx: Ctx) -> None:
 def replay(ctx: Ctx, data: dict) -> bool:
     from topsearch.data.coordinates import AtomicCoordinates
     labels = data.get("labels")
-    if data.get("prepare"):
+    if data.get("refused_comparison"):
+        refused_comparison(ctx)
+    elif data.get("prepare"):
         prepare_check(ctx, labels, data["stored"], [data["pair"]])
     elif not labels or ":shared-object" in str(data.get("system", "")):
         predicates(ctx)
